@@ -65,7 +65,7 @@ pub proof fn lemma_gen_post_append(b: Compiler, c: Compiler, extra: Seq<u8>)
 
 /// nothing emitted (an early error return, a failed attempt that only touched the constant pool)
 pub proof fn lemma_gen_post_same(b: Compiler, c: Compiler)
-    requires c.instructions@ == b.instructions@, c.last_instruction == b.last_instruction, gen_inv(b), sym_wf(c.symbols), (c.last_instruction == Some(OpCode::ReturnValue) ==> c.height@ is Dead),
+    requires c.instructions@ == b.instructions@, c.last_instruction == b.last_instruction, gen_inv(b), sym_wf(c.symbols), (c.last_instruction == Some(OpCode::ReturnValue) ==> c.height@ is Dead) && hcovers(c.height@, 0),
              c.loop_contexts == b.loop_contexts, c.loop_h@ == b.loop_h@,
              b.constants@.len() <= c.constants@.len(), forall|i: int| 0 <= i < b.constants@.len() ==> c.constants@[i] == b.constants@[i],
     ensures gen_post(b, c, false)
@@ -102,7 +102,7 @@ pub proof fn lemma_gen_post_patch(a: Compiler, b: Compiler, c: Compiler, idx: in
     requires gen_post(a, b, ok), a.instructions@.len() <= idx, idx + 2 < b.instructions@.len(),
              c.instructions@ == b.instructions@.update(idx + 1, lo).update(idx + 2, hi),
              c.last_instruction == b.last_instruction, c.loop_contexts == b.loop_contexts, c.loop_h@ == b.loop_h@, sym_same(c.symbols, b.symbols), c.constants == b.constants,
-             new_breaks_clear_of(a, b, idx), (c.last_instruction == Some(OpCode::ReturnValue) ==> c.height@ is Dead),
+             new_breaks_clear_of(a, b, idx), (c.last_instruction == Some(OpCode::ReturnValue) ==> c.height@ is Dead) && hcovers(c.height@, 0),
              (b.last_instruction is Some && no_operand_tail(b.last_instruction->Some_0)) ==> idx + 2 < b.instructions@.len() - 1,
     ensures gen_post(a, c, ok)
 {
@@ -121,7 +121,7 @@ pub proof fn lemma_gen_post_patch(a: Compiler, b: Compiler, c: Compiler, idx: in
 /// the peephole: dropping the trailing Pop
 pub proof fn lemma_gen_post_remove_last(a: Compiler, b: Compiler, c: Compiler, ok: bool)
     requires gen_post(a, b, ok), b.last_instruction == Some(OpCode::Pop), a.instructions@.len() < b.instructions@.len(),
-             c.instructions@ == b.instructions@.drop_last(), c.last_instruction is None,
+             c.instructions@ == b.instructions@.drop_last(), c.last_instruction is None, hcovers(c.height@, 0),
              c.loop_contexts == b.loop_contexts, c.loop_h@ == b.loop_h@, sym_same(c.symbols, b.symbols), c.constants == b.constants,
     ensures gen_post(a, c, false)
 {
@@ -188,7 +188,7 @@ pub proof fn lemma_gen_post_closed_loop(a: Compiler, c: Compiler)
 /// remembered `antwoord` still means dead code
 pub proof fn lemma_gen_post_ghost(a: Compiler, b: Compiler, c: Compiler, ok: bool)
     requires gen_post(a, b, ok), sym_same(c.symbols, b.symbols), c.constants == b.constants, c.instructions == b.instructions,
-             c.last_instruction == b.last_instruction, c.loop_contexts == b.loop_contexts, c.loop_h@ == b.loop_h@, (c.last_instruction == Some(OpCode::ReturnValue) ==> c.height@ is Dead),
+             c.last_instruction == b.last_instruction, c.loop_contexts == b.loop_contexts, c.loop_h@ == b.loop_h@, (c.last_instruction == Some(OpCode::ReturnValue) ==> c.height@ is Dead) && hcovers(c.height@, 0),
     ensures gen_post(a, c, ok)
 {
     let n = a.loop_contexts@.len() as int;
